@@ -17,6 +17,7 @@ import (
 	"path/filepath"
 	"sort"
 	"strconv"
+	"strings"
 	"testing"
 
 	"github.com/skycoin/skycoin/src/cipher"
@@ -441,6 +442,10 @@ func vpHistory(t *testing.T, penc, eenc *json.Encoder, hist int, rng *rand.Rand,
 	var spent []coin.UxOut
 	// ---- transaction generator
 	mk := func(N *vlNode, kind string, ins []coin.UxOut, burn uint32) (coin.Transaction, bool) {
+		// "big-<kind>": the same with so many outputs that it is over the size limit as well
+		fullKind := kind
+		big := kind == "big" || strings.HasPrefix(kind, "big-")
+		kind = strings.TrimPrefix(kind, "big-")
 		head := N.head(t)
 		var txn coin.Transaction
 		var coins, hours uint64
@@ -479,8 +484,11 @@ func vpHistory(t *testing.T, penc, eenc *json.Encoder, hist int, rng *rand.Rand,
 			outH = hours + 1
 		}
 		nout := 1 + rng.Intn(3)
-		if kind == "big" {
-			nout = 24 + rng.Intn(10)
+		if big {
+			nout = 24 + rng.Intn(10) // around the limit
+			if fullKind != "big" {
+				nout = 46 + rng.Intn(6) // above every limit in use: over the size limit AND something else
+			}
 		}
 		if kind == "null-out" {
 			nout = 1 + rng.Intn(3) + rng.Intn(2) // the null address at any position of 1..4 outputs
@@ -535,7 +543,7 @@ func vpHistory(t *testing.T, penc, eenc *json.Encoder, hist int, rng *rand.Rand,
 			t.Fatal(err)
 		}
 		h := txn.Hash().Hex()
-		kinds[h] = kind
+		kinds[h] = fullKind
 		if kind == "bad-sig" {
 			badSig[h] = true
 		}
@@ -599,7 +607,7 @@ func vpHistory(t *testing.T, penc, eenc *json.Encoder, hist int, rng *rand.Rand,
 	}
 
 	kindsList := []string{"normal", "normal", "normal", "fee-exact", "fee-exact", "fee-minus-one", "zero-fee", "hours-over", "precision", "precision", "locked", "null-out", "null-out",
-		"bad-sig", "unknown-input", "spent-input", "big", "hours-overflow", "conflict", "conflict", "chain", "coins-created"}
+		"bad-sig", "unknown-input", "spent-input", "big", "big-bad-sig", "big-coins-created", "big-hours-over", "big-zero-fee", "hours-overflow", "conflict", "conflict", "chain", "coins-created"}
 	var lastTxns []coin.Transaction
 	topRound := 0 // while block 2 is the head
 	for round := 0; round < nrounds; round++ {
